@@ -136,6 +136,26 @@ def check(prop, spec, tier, seed, replay=None):
                 mc_runs.append({"module": inst["module"], "cfg": cfg, "states": r["states"],
                                 "transitions": r["transitions"], "wall_s": round(r["wall_s"], 1),
                                 "twin_rejected": bool(inst.get("expect_violation"))})
+            # unbounded lemmas with Apalache (thorough tier only)
+            for ap in spec.get("apalache", []) if tier == "thorough" else []:
+                import subprocess
+                outdir = tempfile.mkdtemp(prefix="apa", dir=scratch)
+                t1 = time.time()
+                try:
+                    pr = subprocess.run(["apalache-mc", "check", "--inv=" + ap["inv"], "--length=0", "--out-dir=" + outdir, ap["module"]],
+                                        cwd=tlc.SPEC_DIR, capture_output=True, text=True, timeout=ap.get("timeout", 1500))
+                except subprocess.TimeoutExpired as exc:
+                    raise tlc.MachineryError("Apalache timed out on %s" % ap["module"]) from exc
+                okap = "The outcome is: NoError" in pr.stdout
+                if not okap:
+                    if "The outcome is: Error" in pr.stdout:
+                        rp = _write_replay(prop, {"kind": "spec-counterexample", "module": ap["module"], "cfg": ap["inv"],
+                                                  "tlc_output_tail": pr.stdout.splitlines()[-40:]})
+                        violations.append({"what": "Apalache refuted %s of %s" % (ap["inv"], ap["module"]), "replay": rp})
+                    else:
+                        raise tlc.MachineryError("Apalache failed on %s:\n%s" % (ap["module"], pr.stdout[-1500:]))
+                mc_runs.append({"module": ap["module"], "cfg": "apalache --inv=%s (unbounded over Int)" % ap["inv"], "states": 0,
+                                "transitions": 0, "wall_s": round(time.time() - t1, 1), "twin_rejected": False, "proved": okap})
         # ---- 2. run the library, record traces
         only = None
         if replay is not None:
